@@ -25,7 +25,7 @@ EvFilter ==
         IF e.panic # "" THEN {"panic"}
         ELSE IF e.err # "" THEN {"selector-rejected"}
         ELSE JudgeFilter(tab, e.flt, e.out) \cup If2(~e.intact, {"filter-altered"})
-             \cup If2(e.flt.f = "sel" /\ e.flt.s # PrintSel(e.flt.sel), {"selector-print"}))
+             \cup If2(e.flt.f = "sel" /\ "spelt" \notin DOMAIN e.flt /\ e.flt.s # PrintSel(e.flt.sel), {"selector-print"}))
   /\ UNCHANGED tab
 
 EvLess ==
